@@ -31,7 +31,8 @@ Definition not_recv (s : rstate) : Prop := r_phase s <> RecvData.
 
 Definition same_data (s s' : rstate) : Prop :=
   r_segs s' = r_segs s /\ r_recvd s' = r_recvd s /\ r_staged s' = r_staged s /\
-  r_meta s' = r_meta s /\ r_nakproc s' = r_nakproc s /\ r_fsize s' = r_fsize s /\ r_cksum s' = r_cksum s.
+  r_meta s' = r_meta s /\ r_nakproc s' = r_nakproc s /\ r_fsize s' = r_fsize s /\ r_cksum s' = r_cksum s /\
+  r_resps s' = r_resps s.
 
 Definition Kp (s0 s' : rstate) : Prop :=
   r_fs s' = r_fs s0 /\ (not_recv s0 -> not_recv s') /\ r_cfg s' = r_cfg s0 /\ same_data s0 s'.
@@ -44,20 +45,20 @@ Proof. unfold Kp, same_data. splits; auto. Qed.
 Lemma Kp_ext s0 (s s' : rstate) : Kp s0 s -> r_fs s' = r_fs s -> r_phase s' = r_phase s ->
   r_cfg s' = r_cfg s -> r_segs s' = r_segs s -> r_recvd s' = r_recvd s -> r_staged s' = r_staged s ->
   r_meta s' = r_meta s -> r_nakproc s' = r_nakproc s -> r_fsize s' = r_fsize s -> r_cksum s' = r_cksum s ->
-  Kp s0 s'.
+  r_resps s' = r_resps s -> Kp s0 s'.
 Proof.
-  unfold Kp, same_data, not_recv. intros (A & B & C & D1 & D2 & D3 & D4 & D5 & D6 & D7) E1 E2 E3 E4 E5 E6 E7 E8 E9 E10.
-  rewrite E1, E2, E3, E4, E5, E6, E7, E8, E9, E10. splits; auto.
+  unfold Kp, same_data, not_recv. intros (A & B & C & D1 & D2 & D3 & D4 & D5 & D6 & D7 & D8) E1 E2 E3 E4 E5 E6 E7 E8 E9 E10 E11.
+  rewrite E1, E2, E3, E4, E5, E6, E7, E8, E9, E10, E11. splits; auto.
 Qed.
 
 (* leaving (or staying out of) the receive-data phase *)
 Lemma Kp_phase s0 (s s' : rstate) : Kp s0 s -> r_fs s' = r_fs s -> r_phase s' <> RecvData ->
   r_cfg s' = r_cfg s -> r_segs s' = r_segs s -> r_recvd s' = r_recvd s -> r_staged s' = r_staged s ->
   r_meta s' = r_meta s -> r_nakproc s' = r_nakproc s -> r_fsize s' = r_fsize s -> r_cksum s' = r_cksum s ->
-  Kp s0 s'.
+  r_resps s' = r_resps s -> Kp s0 s'.
 Proof.
-  unfold Kp, same_data, not_recv. intros (A & B & C & D1 & D2 & D3 & D4 & D5 & D6 & D7) E1 E2 E3 E4 E5 E6 E7 E8 E9 E10.
-  rewrite E1, E3, E4, E5, E6, E7, E8, E9, E10. splits; auto.
+  unfold Kp, same_data, not_recv. intros (A & B & C & D1 & D2 & D3 & D4 & D5 & D6 & D7 & D8) E1 E2 E3 E4 E5 E6 E7 E8 E9 E10 E11.
+  rewrite E1, E3, E4, E5, E6, E7, E8, E9, E10, E11. splits; auto.
 Qed.
 
 Ltac kp_leaf s0 :=
@@ -250,5 +251,70 @@ Proof.
   - destruct (keeps_shutdown now (set_r_out [] s)) as (A & B & C & _). cbn in A, C. auto.
 Qed.
 
+(* ---- C13: once the receive-data phase is left, the filestore responses never change ---- *)
+Lemma process_pdu_resps now p (s : rstate) : not_recv s -> r_resps (fst (process_pdu now p s)) = r_resps s.
+Proof.
+  intros H. unfold Recv.process_pdu.
+  set (s0 := if suspended s then s else upd_inact (c_reset now) s).
+  assert (H0 : not_recv s0 /\ r_resps s0 = r_resps s).
+  { unfold s0, not_recv in *. destruct (suspended s); cbn; auto. }
+  destruct H0 as (Hn & Hf). clearbody s0. rewrite <- Hf.
+  destruct (cfg_mode (r_cfg s0)); destruct p; cbn [fst];
+    rewrite ?late_filedata_acked, ?late_eof_acked, ?late_metadata_acked, ?late_filedata_unacked,
+            ?late_eof_unacked by exact Hn;
+    unfold pdu_ack_acked, pdu_ack_unacked, pdu_metadata_unacked;
+    repeat (destr_inner; cbn [fst]); reflexivity.
+Qed.
+
+Theorem rstep_resps_frozen now o (s : rstate) : not_recv s -> r_resps (fst (rstep now o s)) = r_resps s.
+Proof.
+  intros H. unfold Recv.rstep.
+  assert (H0 : not_recv (set_r_out [] s)) by (unfold not_recv in *; cbn; assumption).
+  destruct o; cbn [fst].
+  - rewrite (process_pdu_resps now p (set_r_out [] s) H0). reflexivity.
+  - destruct (has_pdu_to_send _); [|reflexivity].
+    destruct (keeps_send_pdu now (set_r_out [] s)) as (_ & _ & _ & D). apply D.
+  - destruct (until_timeout now _) as [[|?]|]; try reflexivity.
+    destruct (keeps_handle_timeout now (set_r_out [] s)) as (_ & _ & _ & D). apply D.
+  - destruct (keeps_cancel now (set_r_out [] s)) as (_ & _ & _ & D). apply D.
+  - destruct (keeps_suspend now (set_r_out [] s)) as (_ & _ & _ & D). apply D.
+  - destruct (keeps_resume now (set_r_out [] s)) as (_ & _ & _ & D). apply D.
+  - destruct (keeps_send_report (set_r_out [] s)) as (_ & _ & _ & D). apply D.
+  - destruct (keeps_shutdown now (set_r_out [] s)) as (_ & _ & _ & D). apply D.
+Qed.
+
+(* ---- C13: the fail-the-rest loop of finalize_receive ---- *)
+Notation run_requests := (run_requests FS fs_exec resp_fail not_performed).
+Lemma run_requests_fail_rest fs reqs : run_requests fs true reqs = (fs, map not_performed reqs).
+Proof.
+  induction reqs as [|r t IH]; cbn [Recv.run_requests map]; [reflexivity|]. rewrite IH. reflexivity.
+Qed.
+(* one response per request, in order *)
+Lemma run_requests_length fs b reqs : length (snd (run_requests fs b reqs)) = length reqs.
+Proof.
+  revert fs b. induction reqs as [|r t IH]; intros fs b; cbn [Recv.run_requests]; [reflexivity|].
+  destruct b.
+  - specialize (IH fs true). destruct (run_requests fs true t) as [fs' rs]. cbn in *. rewrite IH. reflexivity.
+  - destruct (fs_exec fs r) as [fs1 rep]. specialize (IH fs1 (resp_fail rep)).
+    destruct (run_requests fs1 (resp_fail rep) t) as [fs' rs]. cbn in *. rewrite IH. reflexivity.
+Qed.
+(* requests are executed left to right on the filestore the previous one left, up to and including
+   the first that fails; the others are reported not-performed and do not touch the filestore *)
+Fixpoint exec_prefix (fs : FS) (reqs : list fsreq) : FS * list fsresp * list fsreq :=
+  match reqs with
+  | [] => (fs, [], [])
+  | r :: t => let '(fs1, rep) := fs_exec fs r in
+              if resp_fail rep then (fs1, [rep], t)
+              else let '(fs', rs, rest) := exec_prefix fs1 t in (fs', rep :: rs, rest)
+  end.
+Lemma run_requests_spec fs reqs :
+  let '(fs', done, rest) := exec_prefix fs reqs in
+  run_requests fs false reqs = (fs', done ++ map not_performed rest).
+Proof.
+  revert fs. induction reqs as [|r t IH]; intros fs; cbn [exec_prefix Recv.run_requests]; [reflexivity|].
+  destruct (fs_exec fs r) as [fs1 rep]. destruct (resp_fail rep) eqn:Ef.
+  - rewrite run_requests_fail_rest. reflexivity.
+  - specialize (IH fs1). destruct (exec_prefix fs1 t) as [[fs' rs] rest]. rewrite IH. reflexivity.
+Qed.
 
 End RecvP.
